@@ -9,6 +9,7 @@ CONSTANTS
   Leaky = TRUE
   Alphabet <- CoreCmds
   Kinds <- AllKinds
+  Ctxs <- MainCtx
 INIT Init
 NEXT Next
 PROPERTIES Isolation
